@@ -285,7 +285,7 @@ class PSBT:
                     signature = Signature.parse(sig[:-1])
                     # the last byte says which sighash the signature commits to
                     hash_type = sig[-1]
-                    if psbt_in.prev_out:
+                    if psbt_in.prev_out or psbt_in.use_segwit_signature():
                         # segwit
                         if not self.tx_obj.check_sig_segwit(
                             i,
@@ -1156,8 +1156,8 @@ class PSBTIn:
                 )
             if self.tx_in.prev_index >= len(self.prev_tx.tx_outs):
                 raise ValueError("input refers to an output index that does not exist")
-        if self.prev_out:
-            # witness input
+        if self.prev_out or (self.prev_tx and self.use_segwit_signature()):
+            # witness input (BIP174 allows describing it by the whole previous transaction)
             if not (
                 script_pubkey.is_p2sh()
                 or script_pubkey.is_p2wsh()
@@ -1179,7 +1179,7 @@ class PSBTIn:
                         )
                     s256 = self.redeem_script.commands[1]
                 else:
-                    s256 = self.prev_out.script_pubkey.commands[1]
+                    s256 = script_pubkey.commands[1]
                 if self.witness_script.sha256() != s256:
                     raise ValueError(
                         "WitnessScript sha256 and output sha256 do not match"
